@@ -91,8 +91,10 @@ def run(run, replay=None):
         corrupt.append(l)
         reqs.append(("parse " + cl.cps(l), {"op": "corrupt", "line": l}))
     files = []
-    for _ in range(300 if run.tier == "thorough" else 40):
-        n = 1 + rng.below(8)
+    nfiles = 300 if run.tier == "thorough" else 40
+    big = [400, 700] + ([250, 1000, 1500, 333] if run.tier == "thorough" else [])      # files of tens of KiB
+    for fi in range(nfiles + len(big)):
+        n = 1 + rng.below(8) if fi < nfiles else big[fi - nfiles]
         ls = [rng.pick(printed) if rng.chance(2, 3) else rng.pick(corrupt + [";; c", "", "bad line"]) for _ in range(n)]
         ls = [l.replace("\n", "") for l in ls]
         content = "\n".join(ls) + ("\n" if rng.chance(1, 2) else "")
